@@ -57,6 +57,7 @@ class Stats(object):
         self.transitions = 0
         self.traces_validated = 0
         self.extra = {}
+        self.where = None  # (shard, nshards, seed, idx) of the case being evaluated
 
     def sample(self, stratum, obj, per=2):
         l = self.samples.setdefault(stratum, [])
@@ -74,6 +75,8 @@ class Stats(object):
         # keep the first few of every kind so rare kinds are not crowded out
         if self.viol_kinds[kind] <= 3 and len(self.violations) < MAX_VIOL_RECORDS:
             rec = {"case": case, "kind": kind, "detail": detail, "py": PYS}
+            if self.where is not None:
+                rec["history"] = {"shard": self.where[0], "nshards": self.where[1], "seed": self.where[2], "idx": self.where[3], "stage": self.where[4]}
             rec.update(more)
             self.violations.append(rec)
 
